@@ -30,11 +30,14 @@ def make_pages(root, rng, depth_max=2, refs=""):
     sub = " [sub](sub1/index.html)" if depth_max >= 1 else ""
     open(os.path.join(pd, "index.md"), "w").write(f"title: Top Pages\n\nTop page text.{sub} [a](a_page.html){refs}\n")
     open(os.path.join(pd, "a_page.md"), "w").write(f"title: A page\n\nLink to [top](index.html) and url [home](|url|/index.html) and [self](|page|/a_page.html){refs}\n")
+    # the same aliases inside a note box and in the indented continuation paragraph of a list item
+    boxed = "\n\n@note\nBoxed [home](|url|/index.html) and [a](|page|/a_page.html)\n@endnote\n\n1. item one\n\n    continued [top](|page|/index.html) text\n\n2. item two\n"
+    open(os.path.join(pd, "boxed.md"), "w").write(f"title: Boxed\n\nA page with a box.{boxed}")
     if depth_max >= 1:
         os.makedirs(os.path.join(pd, "sub1"))
         deep = " [deep](deep/index.html)" if depth_max >= 2 else ""
         open(os.path.join(pd, "sub1", "index.md"), "w").write(f"title: Sub One\n\nSub [up](../index.html){deep} [a](|page|/a_page.html){refs}\n")
-        open(os.path.join(pd, "sub1", "other.md"), "w").write(f"title: Other\n\nOther page [sib](index.html){refs}\n")
+        open(os.path.join(pd, "sub1", "other.md"), "w").write(f"title: Other\n\nOther page [sib](index.html){refs}{boxed}")
     if depth_max >= 2:
         os.makedirs(os.path.join(pd, "sub1", "deep"))
         open(os.path.join(pd, "sub1", "deep", "index.md"), "w").write(f"title: Deep\n\nDeep [top](../../index.html) [home](|url|/index.html){refs}\n")
@@ -90,6 +93,10 @@ def make_project(seed, root):
             f"module selfimpl{seed}", "!! doc of selfimpl", "implicit none", "interface", "module function sif(x) result(r)", "!! interface doc", "integer, intent(in) :: x", "integer :: r",
             "end function sif", "module subroutine sis()", "!! interface doc", "end subroutine sis", "end interface", "contains", "module procedure sif", "!! implementation doc", "r = x",
             "end procedure sif", "module subroutine sis()", "!! implementation doc", "end subroutine sis", f"end module selfimpl{seed}"]) + "\n")
+    if seed % 4 == 1:
+        open(os.path.join(src, f"zz_boxed{seed}.f90"), "w").write("\n".join([
+            f"module boxed{seed}", "!! doc of the boxed module", "!!", "!! @warning", f"!! Boxed [home](|url|/index.html) and [mod](|url|/module/boxed{seed}.html)", "!! @endwarning", "!!",
+            "!! * item", "!!", f"!!     continued [again](|url|/module/boxed{seed}.html) text", "implicit none", f"end module boxed{seed}"]) + "\n")
     extra_targets = []
     if seed % 5 in (2, 4):
         # names that contain the name of a URL scheme (they are ordinary internal pages)
